@@ -155,3 +155,27 @@ SPECS["C04"] = v2spec(
     timeout={"quick": 1800, "thorough": 3 * 3600},
     post=post_c04,
 )
+
+SPECS["C05"] = v2spec(
+    "TestVerifC05",
+    title="presentation changes do not change what is detected",
+    rule=("case = (base text B, transformation T): B is a planted / edited / truncated / concatenated corpus document or a scenario file; T is one of re-case, horizontal whitespace + CR/CRLF, "
+          "blank-line insertion, comment/quote decoration (18 prefixes), typographic dashes/quotes, or a random composition of 2-3 of them. Lines ending in a hyphen and the line after them are left "
+          "untouched (the statement's exemption). Oracle: license matches of B and T(B) must agree in names, variants, confidence bits, token spans, and in line numbers after mapping inserted lines away. "
+          "Non-trivial = B has at least one license match; distinct = distinct transformed input."),
+    floor_evals={"quick": 1000, "thorough": 15000},
+    floor_nontrivial={"quick": 600, "thorough": 9000},
+    timeout={"quick": 1500, "thorough": 3 * 3600},
+)
+
+SPECS["C06"] = v2spec(
+    "TestVerifC06",
+    title="notices, list markers, hyphenation and spelling variants are ignored",
+    rule=("case = (base text B with >= 1 license match, transformation T): T inserts copyright-notice / ISO-date lines between lines (9 templates), prefixes lines with list markers "
+          "(12 strict forms; '<letter>)' forms separately), splits words over two lines with a trailing hyphen, swaps words for their listed interchangeable spelling, or switches http/https. "
+          "Oracle: license matches of B and T(B) agree (names, variants, confidence bits, token spans, lines mapped through inserted lines) and every inserted notice is reported as a Copyright match on its line. "
+          "Failures are attributed to an open finding only when its token-level signature holds. Non-trivial = the transformation changed the text of a base with matches; distinct = distinct transformed input."),
+    floor_evals={"quick": 1200, "thorough": 20000},
+    floor_nontrivial={"quick": 600, "thorough": 9000},
+    timeout={"quick": 1500, "thorough": 3 * 3600},
+)
